@@ -32,8 +32,8 @@ CLAIMS = {
    note=TB + "Field-structure theorems per method are partial (lengths/alphabets proved, exact decomposition checked by the recogniser).",
    technique="Lean 4 proof + recogniser oracle over grammar-shaped stream", ref="DESIGN.md §6 C06"),
  "C10": dict(
-   text="Lean theorems: the three gensalt entry points coincide, NULL selects the default prefix, the method is chosen by the leading tag only, results fit; correspondence for all prefixes x counts x nrbytes 0..256 x entry points; oracle feeds every generated setting to crypt_checksalt and crypt and checks the literal-prefix clause.",
-   note=TB + "The clause 'crypt accepts every generated setting' is decided by the oracle (compute-budgeted: scrypt and large yescrypt costs are cut and counted), not yet by a theorem.",
+   text="Lean theorems: the three gensalt entry points coincide, NULL selects the default prefix, the method is chosen by the leading tag only, results fit; C10_accept (method level, arbitrary digests, every count / random input / nrbytes / output size): what the writers of NT, descrypt, bsdicrypt, md5crypt, sha256crypt, sha512crypt, sha1crypt and bcrypt ($2a/$2b/$2y) produce is accepted by the same method's front-end for every phrase, and the hash begins with the generated setting; correspondence for all prefixes x counts x nrbytes 0..256 x entry points; oracle feeds every generated setting to crypt_checksalt and crypt and checks the literal-prefix clause.",
+   note=TB + "For sunmd5, bigcrypt, scrypt, yescrypt and gost-yescrypt the clause 'crypt accepts every generated setting' is decided by the oracle (compute-budgeted: scrypt and large yescrypt costs are cut and counted), not yet by a theorem; the lift of C10_accept from the method level to crypt_gensalt_rn/crypt (dispatch) is by correspondence.",
    technique="Lean 4 proof (partial) + gensalt->checksalt->crypt oracle", ref="DESIGN.md §6 C10"),
  "C11": dict(
    text="Lean theorems for the cost each writer encodes (sha clamp, SunMD5 floor and no 32-bit wrap, sha1crypt window, bsdicrypt odd/<=2^24-1, fixed-cost and $2x$ rejections, bcrypt range); an independent decoder written from crypt(5) checks the documented function of count for 6k counts x 15 prefixes.",
